@@ -1,15 +1,23 @@
 import ZV.Proofs.C02
+import ZV.Proofs.C02Names
+import ZV.Proofs.C02Views
+import ZV.Props.C09
+import Mathlib.Data.Nat.Bitwise
 /-!
   C02 — operations on any parsed certificate are total and deterministic: the theorems.
 
   Models: `ZV.Model.C02` (policy loop of the parser + certificate-policies JSON, purgeNameDuplicates,
-  signature-check dispatch on a parsed key), tied to the Go code by the T2 streams `pol` and `names`
-  (and, for the dispatch, by C01's `edkey` / `rsapub`).
+  signature-check dispatch on a parsed key), `ZV.Model.C02Names` (isValidName, CollectAllNames, Redacted flag),
+  `ZV.Model.C02Views` (orMask / GeneralSubtreeIP JSON, KeyUsage JSON, algorithm-name tables, JsonifyExtensions
+  split, BasicConstraints view) and `ZV.Model.C09` (VerifyHostname), tied to the Go code by the T2 streams
+  `pol`, `names`, `coll`, `jnames`, `vh`, `gsi`, `ku`, `kan`, `san`, `jx` (and, for the dispatch, by C01's
+  `edkey` / `rsapub`).
 
   -- FULL (not proved here): `∀ cert, ParseCertificate accepts cert → json.Marshal / VerifyHostname /
   -- CollectAllNames / CertPool.AddCert / Graph.AddCert do not panic` for the complete JSON view and the
-  -- pool / graph code. Proved: the three places where those operations index, dereference or call a
-  -- primitive with a precondition on parser-produced data; everything else is explored by T3.
+  -- pool / graph code. Proved: the places where those operations index, slice, look up a table or call a
+  -- primitive with a precondition on parser-produced data, and what the names / unknown-extension lists
+  -- contain; pkix.Name, key views, the remaining field copies and encoding/json are explored by T3.
 -/
 namespace ZV.C02
 open ZV.C01
@@ -61,6 +69,213 @@ example : [3, 1, 2, 1].Perm [1, 1, 2, 3] := by decide
 theorem names_sorted_nodup {α : Type} [LinearOrder α] (l : List α) : (purge l).Pairwise (· < ·) := sorted_purge l
 
 theorem names_complete {α : Type} [LinearOrder α] (l : List α) (x : α) : x ∈ purge l ↔ x ∈ l := mem_purge x l
+
+
+/-! ### CollectAllNames and the names part of the JSON view (model `ZV.Model.C02Names`, T2 `coll` / `jnames`)
+
+  `isURL` stands for `util.IsURL` (regular expression + `url.Parse`, not modelled): every statement holds for EVERY
+  predicate, so nothing about it is assumed. -/
+
+/-- `isValidName` never panics — the slice expression `name[2:]` is only reached when the name has the two-byte
+    prefix `?.` or `*.` — and is `util.IsURL` of the name with all leading `?.` / `*.` labels removed -/
+theorem isValidName_total (isURL : Str → Bool) (name : Str) :
+    isValidName isURL name = .ok (isURL (stripMarks name)) := isValidName_eq isURL name
+
+theorem isValidName_no_panic (isURL : Str → Bool) (name : Str) : isValidName isURL name ≠ .panic := by
+  rw [isValidName_eq]; simp
+
+/-- `CollectAllNames` is total: for every certificate name data it returns a list (no panic, no error) -/
+theorem collectAllNames_total (isURL : Str → Bool) (c : NameCert) :
+    ∃ names, collectAllNames isURL c = .ok names := ⟨_, collectAllNames_eq isURL c⟩
+
+/-- … which is strictly sorted in Go's string order, hence duplicate-free -/
+theorem collectAllNames_sorted (isURL : Str → Bool) (c : NameCert) (names : List Str)
+    (h : collectAllNames isURL c = .ok names) : names.Pairwise (· < ·) := by
+  rw [collectAllNames_eq] at h
+  cases h
+  exact sorted_purge' strTotal _
+
+theorem collectAllNames_nodup (isURL : Str → Bool) (c : NameCert) (names : List Str)
+    (h : collectAllNames isURL c = .ok names) : names.Nodup := by
+  have hs := collectAllNames_sorted isURL c names h
+  unfold List.Nodup
+  refine hs.imp ?_
+  intro a b hlt e
+  rw [e] at hlt
+  exact strTotal.irrefl _ hlt
+
+example : collectAllNames (fun s => s.length > 3)
+    ⟨[97, 46, 98, 99], [[99, 111, 109], [97, 46, 98, 99]], [], []⟩ = .ok [[97, 46, 98, 99], [99, 111, 109]] := by
+  rw [collectAllNames_eq]; decide
+
+/-- … and contains exactly: the common name if valid; the DNS SANs that are valid or contain no dot; the URI SANs
+    and IP SAN texts that `util.IsURL` accepts — nothing else, nothing missing -/
+theorem collectAllNames_mem (isURL : Str → Bool) (c : NameCert) (names : List Str)
+    (h : collectAllNames isURL c = .ok names) (x : Str) :
+    x ∈ names ↔
+      (x = c.commonName ∧ isURL (stripMarks x) = true) ∨
+      (x ∈ c.dnsNames ∧ (isURL (stripMarks x) = true ∨ containsDot x = false)) ∨
+      (x ∈ c.uris ∧ isURL x = true) ∨ (x ∈ c.ipTexts ∧ isURL x = true) := by
+  rw [collectAllNames_eq] at h
+  cases h
+  rw [mem_purge', mem_candidates]
+  simp [dnsKept]
+
+/-- the output is independent of the order (and multiplicity) in which the SANs are listed — in particular of
+    Go's map iteration order inside `purgeNameDuplicates`: certificates with the same common name and the same
+    SETS of DNS / URI / IP names give the same list -/
+theorem collectAllNames_order_independent (isURL : Str → Bool) (c₁ c₂ : NameCert)
+    (hcn : c₁.commonName = c₂.commonName) (hd : ∀ x, x ∈ c₁.dnsNames ↔ x ∈ c₂.dnsNames)
+    (hu : ∀ x, x ∈ c₁.uris ↔ x ∈ c₂.uris) (hi : ∀ x, x ∈ c₁.ipTexts ↔ x ∈ c₂.ipTexts) :
+    collectAllNames isURL c₁ = collectAllNames isURL c₂ := by
+  rw [collectAllNames_eq, collectAllNames_eq]
+  congr 1
+  apply eq_of_sorted_of_mem_iff' strTotal _ _ (sorted_purge' strTotal _) (sorted_purge' strTotal _)
+  intro x
+  rw [mem_purge', mem_purge', mem_candidates, mem_candidates, hcn, hd, hu, hi]
+
+example : ∀ x, x ∈ ([[1], [2], [1]] : List Str) ↔ x ∈ ([[2], [1]] : List Str) := by
+  intro x; simp; tauto
+
+/-- the whole names view (names + `redacted`) is total, and `redacted` says exactly that some listed name starts
+    with `?` -/
+theorem namesView_total (isURL : Str → Bool) (c : NameCert) :
+    ∃ names, namesView isURL c = .ok (names, redacted names) ∧ collectAllNames isURL c = .ok names := by
+  refine ⟨purge (candidates isURL c), ?_, collectAllNames_eq isURL c⟩
+  simp [namesView, collectAllNames_eq]
+
+theorem redacted_iff (names : List Str) : redacted names = true ↔ ∃ n ∈ names, ∃ rest, n = 63 :: rest := by
+  unfold redacted
+  rw [List.any_eq_true]
+  constructor
+  · rintro ⟨n, hn, hq⟩
+    refine ⟨n, hn, ?_⟩
+    match n, hq with
+    | x :: rest, hq => simp [hasPrefixQ] at hq; exact ⟨rest, by rw [hq]⟩
+  · rintro ⟨n, hn, rest, rfl⟩
+    exact ⟨_, hn, by simp [hasPrefixQ]⟩
+
+
+/-! ### JSON sub-views with index / table / slice logic (model `ZV.Model.C02Views`, T2 `gsi` `ku` `kan` `san` `jx`)
+
+  Every model here is a pure function of the parsed value, so "two calls give the same output" holds by
+  construction; the theorems are about totality and about what the view says. -/
+
+/-- zcrypto `orMask` never indexes out of range, for ANY address and mask lengths (the length guards suffice) -/
+theorem orMask_no_panic (ip mask : Bytes) : orMask ip mask ≠ .panic := by
+  rcases orMask_cases ip mask with h | ⟨_, h, _⟩ <;> simp [h]
+
+/-- … and the guard `len(ip) != len(mask)` is what makes it so: the bare loop panics on every shorter mask -/
+theorem orMask_loop_needs_guard (ip mask : Bytes) (h : mask.length < ip.length) : orLoop mask 0 ip = .panic :=
+  orLoop_panic_of_short mask ip h
+
+example : orLoop [0xff] 0 [10, 0, 0, 1] = .panic := orMask_loop_needs_guard _ _ (by decide)
+
+/-- `(*GeneralSubtreeIP).MarshalJSON` is total for ANY `net.IPNet` (address and mask of any lengths, also the
+    ones the parser never produces) -/
+theorem subtreeIP_json_total (ip mask : Bytes) : ∃ v, subtreeIPView ip mask = .ok v := subtreeIPView_ok ip mask
+
+theorem subtreeIP_json_no_panic (ip mask : Bytes) : subtreeIPView ip mask ≠ .panic := by
+  obtain ⟨v, h⟩ := subtreeIPView_ok ip mask
+  simp [h]
+
+/-- on what the parser produces (address and mask of the same length 4 or 16) the view is either CIDR-only (mask
+    not a prefix) or has begin, end and mask, each of the address length -/
+theorem subtreeIP_json_parser_shape (ip mask : Bytes) (h : ip.length = mask.length) (h4 : ip.length = 4 ∨ ip.length = 16) :
+    ∃ v, subtreeIPView ip mask = .ok v ∧
+      ((v.begin = none ∧ v.end_ = none ∧ v.mask = none) ∨
+       ((∃ b, v.begin = some b ∧ b.length = ip.length) ∧ (∃ e, v.end_ = some e ∧ e.length = ip.length) ∧ v.mask = some mask)) := by
+  obtain ⟨e, he, hel⟩ := orMask_some_of_shape ip (invertMask mask) (by rw [invertMask_length]; exact h) h4
+  have hb : ∃ b, ipMask ip mask = some b ∧ b.length = ip.length := by
+    unfold ipMask
+    have h1 : ¬ (mask.length = 16 ∧ ip.length = 4 ∧ (mask.take 12).all (· = 0xff) = true) := by omega
+    have h2 : ¬ (mask.length = 4 ∧ ip.length = 16 ∧ ip.take 12 = v4InV6Prefix) := by omega
+    simp only [h1, h2, if_false]
+    simp [h]
+  obtain ⟨b, hb, hbl⟩ := hb
+  unfold subtreeIPView
+  simp only
+  split
+  · exact ⟨_, rfl, Or.inl ⟨rfl, rfl, rfl⟩⟩
+  · refine ⟨_, by rw [he], Or.inr ⟨⟨b, hb, hbl⟩, ⟨e, rfl, hel⟩, ?_⟩⟩
+    have : mask.length = 4 ∨ mask.length = 16 := by omega
+    simp [this]
+
+example : subtreeIPView [192, 0, 2, 77] [255, 255, 255, 0] =
+    .ok ⟨some ([192, 0, 2, 77], .inl 24), some [192, 0, 2, 0], some [192, 0, 2, 255], some [255, 255, 255, 0]⟩ := by decide
+
+/-- `KeyUsage.MarshalJSON`: flag `i` of the view is bit `i` of the value, for every value -/
+theorem keyUsage_flags (k : Nat) : (keyUsageView k).1 = (List.range 9).map (fun i => k.testBit i) := by
+  unfold keyUsageView
+  simp only
+  apply List.map_congr_left
+  intro i _
+  rw [Nat.one_shiftLeft, Nat.and_two_pow]
+  cases k.testBit i <;> simp [Nat.two_pow_pos]
+
+theorem keyUsage_value (k : Nat) : (keyUsageView k).2 < 4294967296 ∧ (k < 4294967296 → (keyUsageView k).2 = k) := by
+  unfold keyUsageView
+  exact ⟨Nat.mod_lt _ (by decide), fun h => Nat.mod_eq_of_lt h⟩
+
+/-- `PublicKeyAlgorithm.String` never indexes `keyAlgorithmNames` out of range, for every integer value -/
+theorem keyAlgName_no_panic (p : Int) : keyAlgName p ≠ .panic := by
+  obtain ⟨s, h⟩ := keyAlgName_ok p
+  simp [h]
+
+/-- `SignatureAlgorithm.String` and the name of `jsonifySignatureAlgorithm` never index `algoName` out of range -/
+theorem sigAlgName_no_panic (a : Int) : sigAlgString a ≠ .panic ∧ sigAlgJSONName a ≠ .panic := by
+  obtain ⟨s, h⟩ := sigAlgString_ok a
+  refine ⟨by simp [h], ?_⟩
+  unfold sigAlgJSONName
+  split
+  · simp
+  · simp [h]
+
+/-- `JsonifyExtensions`: the unknown list is exactly the extensions whose OID is none of the sixteen known ones, in
+    certificate order (nothing dropped, nothing duplicated) -/
+theorem jsonify_unknown_exact (exts : List (List Nat)) :
+    (jsonifySplit exts).2 = ((exts.zipIdx).filter (fun e => (knownExtOids.idxOf? e.1).isNone)).map (·.2) := by
+  unfold jsonifySplit
+  rw [jsonifySplit_fold_unknown]
+  simp
+
+/-- … and the view at position `k` of the chain is filled iff some extension carries the `k`-th known OID -/
+theorem jsonify_known_exact (exts : List (List Nat)) (k : Nat) :
+    k ∈ (jsonifySplit exts).1 ↔ ∃ oid ∈ exts, knownExtOids.idxOf? oid = some k := by
+  unfold jsonifySplit
+  rw [jsonifySplit_fold_known]
+  simp only [List.not_mem_nil, false_or]
+  constructor
+  · rintro ⟨e, he, hk⟩
+    exact ⟨e.1, (List.mem_zipIdx' he).2 ▸ List.getElem_mem _, hk⟩
+  · rintro ⟨oid, ho, hk⟩
+    obtain ⟨i, hi, rfl⟩ := List.getElem_of_mem ho
+    exact ⟨(exts[i], i), by simp [List.mem_zipIdx_iff_getElem?, hi], hk⟩
+
+example : jsonifySplit [[2, 5, 29, 19], [1, 2, 3], [2, 5, 29, 15], [2, 5, 29, 19]] = ([1, 0], [1]) := by decide
+
+/-- the `BasicConstraints` view carries a path length iff `MaxPathLen > 0 || MaxPathLenZero` -/
+theorem basicConstraints_pathlen_iff (isCA : Bool) (n : Int) (z : Bool) :
+    ((basicConstraintsView isCA n z).2 = some n ↔ (n > 0 ∨ z = true)) ∧
+    ((basicConstraintsView isCA n z).2 = none ↔ ¬ (n > 0 ∨ z = true)) := by
+  unfold basicConstraintsView
+  by_cases h : n > 0 ∨ z = true <;> simp [h]
+
+/-! ### hostname verification (model and theorems of C09: `ZV.Model.C09`, T2 `c09 vh` / `mh` / `low` and `c02 vh`)
+
+  C09 models `VerifyHostname`, `matchHostnames`, `toLowerCaseASCII` and `net.ParseIP` exactly and proves the matching
+  rules; what C02 needs from it is totality on ANY certificate name data and ANY host string. -/
+
+/-- `VerifyHostname` never panics (every index of `matchHostnames`, `h[0]`, `h[len(h)-1]`, `h[1:len(h)-1]` in range),
+    for every certificate and every host -/
+theorem verifyHostname_no_panic (c : ZV.C09.Cert) (h : ZV.C09.Str) : ZV.C09.verifyHostname c h ≠ .panic := by
+  obtain ⟨v, hv⟩ := ZV.C09.verifyHostname_total c h
+  simp [hv]
+
+/-- `matchHostnames` never indexes `hostParts[i]` out of range, for every pattern and host -/
+theorem matchHostnames_no_panic (pattern host : ZV.C09.Str) : ZV.C09.matchHostnames pattern host ≠ .panic := by
+  obtain ⟨b, hb⟩ := ZV.C09.match_no_panic pattern host
+  simp [hb]
 
 /-! ### signature check against any candidate parent -/
 
